@@ -135,6 +135,8 @@ type Session struct {
 	nextRetransmissionTime atomic.Int64  // time that need to retransmit a segment in sendBuf, in microseconds since Unix epoch
 	ackOnDataRecv          atomic.Bool   // whether ack should be sent due to receive of new data
 	unreadBuf              []byte        // payload removed from the recvQueue that haven't been read by application
+	streamRecvCount        atomic.Uint32 // number of segments delivered to recvQueue, used by stream transport
+	peerClosedCleanly      atomic.Bool   // peer closed the session after all its segments were received
 
 	rttStat            *congestion.RTTStats
 	cubicSendAlgorithm *congestion.CubicSendAlgorithm
@@ -283,7 +285,15 @@ func (s *Session) Read(b []byte) (n int, err error) {
 			// Wait for incoming segments to fill the recvQueue.
 			select {
 			case <-s.closedChan:
-				return 0, io.EOF
+				if s.recvQueue.Len() > 0 {
+					continue
+				}
+				if s.peerClosedCleanly.Load() {
+					return 0, io.EOF
+				}
+				// The session is closed, but the peer didn't confirm
+				// that all of its data has been delivered.
+				return 0, io.ErrUnexpectedEOF
 			case <-s.inputErr:
 				return 0, io.ErrUnexpectedEOF
 			case <-timeC:
@@ -1047,6 +1057,7 @@ func (s *Session) inputData(seg *segment) error {
 			if !s.recvQueue.Insert(seg) {
 				return fmt.Errorf("inputData() failed: insert %v to receive queue failed", seg)
 			}
+			s.streamRecvCount.Add(1)
 		}
 	case common.PacketTransport:
 		// Delete all previous acknowledged segments from sendBuf.
@@ -1188,6 +1199,16 @@ func (s *Session) inputAck(seg *segment) error {
 func (s *Session) inputClose(seg *segment) error {
 	s.oLock.Lock()
 	if seg.metadata.Protocol() == closeSessionRequest {
+		// The sequence number of a close session request is the number of
+		// segments the peer has sent before. The close is clean only if
+		// all of them have been received.
+		received := s.nextRecv.Load()
+		if s.transportProtocol == common.StreamTransport {
+			received = s.streamRecvCount.Load()
+		}
+		if seq, _ := seg.Seq(); seq <= received {
+			s.peerClosedCleanly.Store(true)
+		}
 		// Send close session response.
 		seg2 := &segment{
 			metadata: &sessionStruct{
